@@ -13,7 +13,7 @@ ANCHORS = ["ScenarioID.__str__", "ScenarioID.from_benchmark_id", "CommonRoadSolu
 REQUIRED = ["kind.map", "kind.config", "kind.behaviour", "kind.behaviour+id", "kind.behaviour+ids",
             "kind.behaviour-noconfig", "cooperative", "country.ZAM", "solution.single", "solution.cooperative",
             "all-model-type-cost-tuples", "assigned-after-print.map_id", "assigned-after-print.prediction_id",
-            "assigned-after-print.configuration_id", "original-inspected-before-comparison"]
+            "assigned-after-print.configuration_id", "original-inspected-before-comparison", "read-again-after-the-first-result-was-edited"]
 ASSUMPTIONS = ["single-element prediction-id lists are not generated (canonical single form is the int)",
                "map names consist of letters and digits (the constructor strips everything else)"]
 SHARDS = {"quick": 2, "thorough": 16}
@@ -213,5 +213,30 @@ def run(ctx):
                 if getattr(sid2, fld) != getattr(sid, fld):
                     ctx.violation("C13/Solution/scenario-id-field-differs/" + fld,
                                   "%r: %s %r -> %r" % (bid, fld, getattr(sid, fld), getattr(sid2, fld)), bid)
+            if i % 2 == 0:
+                # what a reader returns belongs to the caller: the scenario id of the first result is edited in place, then
+                # the SAME benchmark id is read once more -- it still parses to the id that was written
+                ctx.feature("read-again-after-the-first-result-was-edited")
+                sid2.map_id = (sid2.map_id or 0) + 1
+                sid2.map_name = "Edited"
+                sid2.scenario_version = "2018b" if version != "2018b" else "2020a"
+                if any(m is VehicleModel.KST for m, _, _ in kinds_mtc) and hasattr(CommonRoadSolutionReader, "_parse_benchmark_id"):
+                    sid3 = CommonRoadSolutionReader._parse_benchmark_id(bid)[2]
+                else:
+                    back3 = CommonRoadSolutionReader.fromstring(xml)
+                    sid3 = back3.scenario_id
+                    if back3.benchmark_id != bid:
+                        ctx.violation("C13/Solution/second-read-of-the-same-document-gives-another-benchmark-id",
+                                      "%r -> %r" % (bid, back3.benchmark_id), bid)
+                sid4 = ScenarioID.from_benchmark_id(str(sid), version)
+                sid4.map_id = (sid4.map_id or 0) + 1
+                sid5 = ScenarioID.from_benchmark_id(str(sid), version)
+                for fld in FIELDS:
+                    if getattr(sid3, fld) != getattr(sid, fld):
+                        ctx.violation("C13/Solution/second-read-of-the-same-id-differs/" + fld,
+                                      "%r: %s %r -> %r" % (bid, fld, getattr(sid, fld), getattr(sid3, fld)), bid)
+                    if getattr(sid5, fld) != getattr(sid, fld):
+                        ctx.violation("C13/ScenarioID/second-parse-of-the-same-text-differs/" + fld,
+                                      "%r: %s %r -> %r" % (str(sid), fld, getattr(sid, fld), getattr(sid5, fld)), str(sid))
         except Exception as ex:  # noqa
             ctx.violation("C13/Solution/raises-%s" % type(ex).__name__, "%r %r" % (f, ex), f)
